@@ -313,6 +313,9 @@ static bool lammps_factors(double &fpos, double &fforce, std::string &err, int f
     if (flavour == 0) f << "ITEM: ATOMS id type x y z vx vy vz fx fy fz\n1 0 8.0 16.0 32.0 0.0 0.0 0.0 4.0 -2.0 64.0\n";
     if (flavour == 1) f << "ITEM: ATOMS id type xu yu zu vx vy vz fx fy fz\n1 0 8.0 16.0 32.0 0.0 0.0 0.0 4.0 -2.0 64.0\n";
     if (flavour == 2) f << "ITEM: ATOMS id type xs ys zs vx vy vz fx fy fz\n1 0 0.04 0.08 0.16 0.0 0.0 0.0 4.0 -2.0 64.0\n";
+    // third frame: triclinic cell, edges 200 A, tilt xy=20 xz=10 yz=5 A (bounds are those of the bounding box); only its box is looked at
+    f << "ITEM: TIMESTEP\n3\nITEM: NUMBER OF ATOMS\n1\nITEM: BOX BOUNDS xy xz yz pp pp pp\n0 230.0 20.0\n0 205.0 10.0\n0 200.0 5.0\n";
+    f << "ITEM: ATOMS id type x y z vx vy vz fx fy fz\n1 0 8.0 16.0 32.0 0.0 0.0 0.0 4.0 -2.0 64.0\n";
   }
   bool ok = true;
   std::streambuf *old = std::cout.rdbuf();
@@ -332,9 +335,11 @@ static bool lammps_factors(double &fpos, double &fforce, std::string &err, int f
     reader->FirstFrame(top);
     Eigen::Vector3d p_first = top.getBead(0)->getPos(), F_first = top.getBead(0)->getF();
     bool second = reader->NextFrame(top);
+    Eigen::Vector3d p_second = top.getBead(0)->getPos(), F_second = top.getBead(0)->getF();
+    bool third = second && reader->NextFrame(top);
+    Eigen::Matrix3d B3 = top.getBox();
     reader->Close();
-    if (!second || (top.getBead(0)->getPos() - p_first).cwiseAbs().maxCoeff() > 1e-12 ||
-        (top.getBead(0)->getF() - F_first).cwiseAbs().maxCoeff() > 1e-9) {
+    if (!second || (p_second - p_first).cwiseAbs().maxCoeff() > 1e-12 || (F_second - F_first).cwiseAbs().maxCoeff() > 1e-9) {
       std::cout.rdbuf(old);
       err = "second frame (other box, same Angstrom coordinates) converted differently from the first";
       remove(file.c_str());
@@ -342,9 +347,15 @@ static bool lammps_factors(double &fpos, double &fforce, std::string &err, int f
       return false;
     }
     std::cout.rdbuf(old);
-    Eigen::Vector3d p = top.getBead(0)->getPos(), F = top.getBead(0)->getF();
+    Eigen::Vector3d p = p_second, F = F_second;
     fpos = p.x() / 8.0;
     fforce = F.x() / 4.0;
+    // the cell vectors are lengths like the positions: edges and tilt factors of the triclinic frame use the same factor
+    if (!third || !(close(B3(0, 0) / 200.0, fpos, 1e-13) && close(B3(1, 1) / 200.0, fpos, 1e-13) && close(B3(2, 2) / 200.0, fpos, 1e-13) &&
+                    close(B3(0, 1) / 20.0, fpos, 1e-13) && close(B3(0, 2) / 10.0, fpos, 1e-13) && close(B3(1, 2) / 5.0, fpos, 1e-13))) {
+      err = third ? "box edges / tilt factors of a triclinic frame converted differently from the positions" : "triclinic third frame not read";
+      ok = false;
+    }
     // all three components must use the same factor
     if (!(close(p.y() / 16.0, fpos, 1e-14) && close(p.z() / 32.0, fpos, 1e-14) && close(F.y() / -2.0, fforce, 1e-14) &&
           close(F.z() / 64.0, fforce, 1e-14))) {
@@ -700,6 +711,22 @@ static Result run_elem(const json &c) {
                 got = e3.getEleShortClosestInMass(q, tol);
               } catch (const std::runtime_error &) {
                 threw = true;
+              }
+              // the lazily filled tables again: the closest-in-mass lookup as the FIRST call on a fresh object
+              {
+                vt::Elements e4;
+                std::string got4;
+                bool threw4 = false;
+                try {
+                  got4 = e4.getEleShortClosestInMass(q, tol);
+                } catch (const std::runtime_error &) {
+                  threw4 = true;
+                }
+                if (threw4 != threw || got4 != got) {
+                  r.fail("Elements/accessor-order/" + sym, fmt("getEleShortClosestInMass(%.10g, %g) as the first call on a fresh Elements object: '%s'%s, after isMassAssociatedWithElement: '%s'%s",
+                                                             q, tol, got4.c_str(), threw4 ? " (threw)" : "", got.c_str(), threw ? " (threw)" : ""));
+                  break;
+                }
               }
               if (admits && (threw || got != sym || !assoc)) {
                 r.fail(key, fmt("mass %.10g (%s%+.3g) with tolerance %g: closest element reported as '%s'%s, isMassAssociatedWithElement=%d; expected %s",
